@@ -89,10 +89,16 @@ def gen_history(rng, uni, length, n_tids, n_codes, p_trace=0.3):
             pool.append(rng.choice(same_class) if same_class and rng.random() < 0.35 else rng.choice(uni.undecoded))
         else:
             c = uni.unknown(rng)
-            if rng.random() < 0.35:
+            r2 = rng.random()
+            if r2 < 0.25:
                 c = 0x07000000 | (c & 0x00fffffc)         # unknown to the table, class of the trace-domain codes
                 if c in uni.codes:
                     c = uni.unknown(rng)
+            elif r2 < 0.6:
+                # unknown to the table, next to a trace-domain code (same class and subclass: the slots a newer kernel would use)
+                near = [t + d for t in uni.trace_codes for d in (4, 8, 12, -4, 0x40, 0x100) if 0 <= t + d < 2 ** 32 and t + d not in uni.codes]
+                if near:
+                    c = rng.choice(near)
             pool.append(c)
     hist = []
     for _ in range(length):
